@@ -55,7 +55,10 @@ def unit_props(unit):
         for ln in open(os.path.join(VERIF, rel), encoding='utf-8'):
             s = ln.strip()
             if s.startswith('//@ include'):
-                scan(s.split(None, 2)[2].strip())
+                a = s.split()
+                if len(a) >= 5 and a[3] == 'as' and a[4] == 'callee':
+                    continue  # callee contracts are proved (and their tags counted) in their home unit
+                scan(a[2])
             elif s.startswith('//@ props'):
                 props.update(s.split()[2:])
             else:
@@ -83,7 +86,7 @@ def run_unit(unit, defines=None, vacuity=False, rlimit=None, seed=None, tag='mai
     path = os.path.join(BUILD, fname)
     with open(path, 'w') as f:
         f.write(asm['text'])
-    res['asm'] = {k: asm[k] for k in ('fns', 'rewrites', 'items', 'hashes', 'defines')}
+    res['asm'] = {k: asm[k] for k in ('fns', 'callees', 'rewrites', 'items', 'hashes', 'defines')}
     res['path'] = path
     cmd = [VERUS, fname, '--output-json', '--time-expanded', '--multiple-errors', str(multiple_errors), '--error-format=json']
     if rlimit:
@@ -139,7 +142,15 @@ def run_unit(unit, defines=None, vacuity=False, rlimit=None, seed=None, tag='mai
         spans = []
         for sp in d.get('spans', []):
             ls = sp.get('line_start')
+            le = sp.get('line_end') or ls
             o = linemap[ls] if ls is not None and 0 < ls < len(linemap) else None
+            if o and o.get('kind') in ('contract', 'template') and not o.get('tags'):
+                # a clause may span several lines; its tag sits on its last line
+                for k in range(ls, min(le, len(linemap) - 1) + 1):
+                    ok_ = linemap[k]
+                    if ok_ and ok_.get('tags') and ok_.get('kind') == o.get('kind'):
+                        o = dict(o, tags=ok_['tags'])
+                        break
             spans.append(dict(line=ls, primary=sp.get('is_primary'), label=sp.get('label'), origin=o,
                               text=(sp.get('text') or [{}])[0].get('text', '').strip()))
         if kind is None or lvl == 'raw':
